@@ -265,3 +265,77 @@ def send_full(c):
     c.ensure('no-exception', 'raised is None')
     c.ensure('true-iff-accepted', 'result is (not full) and (is_same(outq.queue[-1], pk)) is (not full)')
     c.ensure('error-reported-iff-refused', "len(sent('link_error')) == (1 if full else 0)")
+
+
+# ------------------------------------------------------------------------- the path below the radio thread: dongle ack decoding and the shared radio
+
+CR = 'cflib.drivers.crazyradio'
+
+
+def _ack_decode(n):
+    @contract('C01', 'crazyradio.send_packet.len%d' % n, [CR + ':Crazyradio.send_packet'],
+              clause='the dongle reply is decoded into exactly the acknowledgement the radio loop relies on: ack = bit 0, power detector = bit 1, '
+                     'retries = high nibble, ack payload = the remaining bytes; a reply whose status byte is 0 is "not acknowledged"; no reply gives None',
+              bounded='reply of %d bytes (1, 4 and 33 enumerated), every byte value' % n)
+    def k(c):
+        rx = c.bytes('rx', n)
+        got = c.choice('dongle_answers', [True, False])
+        handle = c.ext('handle', returns={'read': rx if got else None})
+        c.patch(CR + ':Crazyradio._log_packet', c.ext('log_packet'))
+        c.int('arc', 0, 15)
+        radio = c.obj(CR + ':Crazyradio', handle=handle, devid=0, current_address=None, current_channel=None, current_datarate=None, arc=c.get('arc'))
+        out = c.bytes('out', 3)
+        c.call((radio, 'send_packet'), out)
+        c.ensure('no-exception', 'raised is None')
+        c.ensure('frame-written-once-then-one-read', "calls('handle') == ('handle.write', 'handle.read') and sent('handle.write')[0][2]['data'] == out")
+        if not got:
+            c.ensure('no-reply-is-none', 'result is None')
+        else:
+            c.ensure('status-zero-means-not-acknowledged', 'implies(rx[0] == 0, result.ack is False and result.retry == arc and len(result.data) == 0)')
+            c.ensure('ack-bit', 'implies(rx[0] != 0, result.ack == ((rx[0] & 1) == 1))')
+            c.ensure('power-detector-bit', 'implies(rx[0] != 0, result.powerDet == (((rx[0] >> 1) & 1) == 1))')
+            c.ensure('retry-count', 'implies(rx[0] != 0, result.retry == rx[0] >> 4)')
+            c.ensure('ack-payload', 'implies(rx[0] != 0, bytes(result.data) == rx[1:])')
+    return k
+
+
+for _n in (1, 4, 33):
+    _ack_decode(_n)
+
+
+@contract('C01', 'shared_radio.send', [RD + ':_SharedRadioInstance.send_packet', RD + ':_SharedRadio.run'],
+          clause='a frame handed to one link of a shared dongle is transmitted once with that link\'s channel, address and data rate, and its '
+                 'acknowledgement is returned to that link and to no other',
+          bounded='two links sharing one dongle')
+def shared_radio(c):
+    acks = [mk_ack(c, True, c.bytes('a0', 2)), mk_ack(c, False, ())]
+    it = iter(acks)
+    radio = c.ext('dongle', returns={'send_packet': lambda *_a: next(it)})
+    cmdq = c.queue('cmdq')
+    rq = [c.queue('rsp0'), c.queue('rsp1')]
+    inst = []
+    for i in range(2):
+        x = c.new(RD + ':_SharedRadioInstance', i, cmdq, rq[i], 0.5)
+        c.int('ch%d' % i, 0, 125), c.int('dr%d' % i, 0, 2)
+        addr = c.ints('ad%d' % i, 5, 0, 255, kind='tuple')
+        c.call((x, 'set_channel'), c.get('ch%d' % i)), c.call((x, 'set_data_rate'), c.get('dr%d' % i)), c.call((x, 'set_address'), addr)
+        inst.append(x)
+    shared = c.obj(RD + ':_SharedRadio', _radio=radio, _devid=0, _cmd_queue=cmdq, _rsp_queues=c.dict([(0, rq[0]), (1, rq[1])]),
+                   _next_instance_id=2, _lock=c.lock('sem'))
+    frames = [c.bytes('f0', 3), c.bytes('f1', 3)]
+    order = c.choice('order', [(0, 1), (1, 0)])
+    c.reset_trace()
+    for j, who in enumerate(order):
+        # the link thread blocks in rsp_queue.get() until the shared radio thread has served the command
+        c.call((inst[who], 'send_packet'), frames[who])
+        c.ensure('link-%d-waits-for-its-answer' % j, "raised == 'Deadlock'")
+        c.call((shared, 'run'))
+        c.ensure('radio-thread-idle-again-%d' % j, "raised == 'Deadlock'")
+    c.let('order', order)
+    c.let('rq', tuple(rq)), c.let('frames', tuple(frames)), c.let('acks', tuple(acks))
+    for j, who in enumerate(order):
+        c.ensure('answer-%d-to-the-asking-link-only' % j, 'len(rq[%d].queue) == 1 and is_same(rq[%d].queue[0], acks[%d])' % (who, who, j))
+        c.let('tx', tuple(e for e in (c.get('trace') or ()) if e[0].startswith('dongle.'))[4 * j:4 * j + 4])
+        c.ensure('settings-then-frame-%d' % j, "tuple(e[0] for e in tx) == ('dongle.set_channel', 'dongle.set_address', 'dongle.set_data_rate', 'dongle.send_packet') and "
+                 "tx[0][1][0] == ch%d and tuple(tx[1][1][0]) == tuple(ad%d) and tx[2][1][0] == dr%d and tx[3][1][0] == frames[%d]" % (who, who, who, who))
+    c.ensure('exactly-two-transmissions', "len(sent('dongle.send_packet')) == 2")
